@@ -1284,6 +1284,207 @@ def _specialise_constant_dispatch(tree: ast.Module, modname: str, known: Optiona
                     c.keywords = [k for k in c.keywords if k.arg != disp]
 
 
+def _fold_constant_tests(body: List[ast.stmt]) -> List[ast.stmt]:
+    """`if <constant test>:` keeps the arm that runs; `<a> if <constant> else <b>` the value that is chosen; `x and True` -> x."""
+    def truth(e: ast.AST) -> Optional[bool]:
+        if isinstance(e, ast.Constant):
+            return bool(e.value)
+        if isinstance(e, ast.UnaryOp) and isinstance(e.op, ast.Not):
+            t = truth(e.operand)
+            return None if t is None else not t
+        if isinstance(e, ast.Compare) and len(e.ops) == 1 and isinstance(e.left, ast.Constant) and isinstance(e.comparators[0], ast.Constant):
+            a, b = e.left.value, e.comparators[0].value
+            if isinstance(e.ops[0], ast.Is):
+                return a is b
+            if isinstance(e.ops[0], ast.IsNot):
+                return a is not b
+            if isinstance(e.ops[0], ast.Eq) and type(a) is type(b):
+                return a == b
+            if isinstance(e.ops[0], ast.NotEq) and type(a) is type(b):
+                return a != b
+        if isinstance(e, ast.BoolOp):
+            ts = [truth(v) for v in e.values]
+            if isinstance(e.op, ast.And):
+                if any(t is False for t in ts):
+                    return False
+                return True if all(t is True for t in ts) else None
+            if any(t is True for t in ts):
+                return True
+            return False if all(t is False for t in ts) else None
+        return None
+
+    class _F(ast.NodeTransformer):
+        def visit_FunctionDef(self, node):  # type: ignore[no-untyped-def]
+            return node
+
+        def visit_Lambda(self, node):  # type: ignore[no-untyped-def]
+            return node
+
+        def visit_BoolOp(self, node):  # type: ignore[no-untyped-def]
+            self.generic_visit(node)
+            keep = []
+            for v in node.values:
+                t = truth(v)
+                if isinstance(node.op, ast.And) and t is True and isinstance(v, ast.Constant):
+                    continue  # `x and True`
+                if isinstance(node.op, ast.Or) and t is False and isinstance(v, ast.Constant):
+                    continue  # `x or False`
+                keep.append(v)
+            if not keep:
+                return ast.copy_location(ast.Constant(value=isinstance(node.op, ast.And)), node)
+            if len(keep) == 1:
+                return keep[0]
+            node.values = keep
+            return node
+
+        def visit_IfExp(self, node):  # type: ignore[no-untyped-def]
+            self.generic_visit(node)
+            t = truth(node.test)
+            return node if t is None else (node.body if t else node.orelse)
+
+        def visit_If(self, node):  # type: ignore[no-untyped-def]
+            node.test = self.visit(node.test)
+            node.body = fold(node.body)
+            node.orelse = fold(node.orelse)
+            return node
+
+    def fold(stmts: List[ast.stmt]) -> List[ast.stmt]:
+        out: List[ast.stmt] = []
+        for st in stmts:
+            st = _F().visit(st)
+            if isinstance(st, ast.If):
+                t = truth(st.test)
+                if t is True:
+                    out += st.body
+                    continue
+                if t is False:
+                    out += st.orelse
+                    continue
+            elif isinstance(st, (ast.For, ast.While, ast.With, ast.Try)):
+                for fld in ("body", "orelse", "finalbody"):
+                    if getattr(st, fld, None):
+                        setattr(st, fld, fold(getattr(st, fld)) or [ast.copy_location(ast.Pass(), st)])
+                for h in getattr(st, "handlers", []) or []:
+                    h.body = fold(h.body) or [ast.copy_location(ast.Pass(), h)]
+            out.append(st)
+        return out
+
+    return fold(body)
+
+
+def _specialise_constant_flags(tree: ast.Module, modname: str, known: Optional[set]) -> None:
+    """A private helper introduced after the rules were written that takes a FLAG (`missing_ok=False`, `retry=True`,
+    `on_error=None`) which every call site gives as a literal (or leaves at its literal default) and which the helper only TESTS
+    is two or three functions sharing a body: one copy per distinct literal combination, the flag substituted and the tests on it
+    folded away.  What the rules then see per call site is the code path that call site can take."""
+    import copy
+    if known is None:
+        return
+    owners: List[Tuple[List[ast.stmt], Optional[str]]] = [(tree.body, None)]
+    owners += [(c.body, c.name) for c in tree.body if isinstance(c, ast.ClassDef)]
+    all_defs = [x.name for x in ast.walk(tree) if isinstance(x, (ast.FunctionDef, ast.AsyncFunctionDef))]
+
+    def literal(e: Optional[ast.AST]) -> bool:
+        return isinstance(e, ast.Constant) and (e.value is None or isinstance(e.value, (bool,)))
+
+    for body, cname in owners:
+        for f in list(body):
+            if not isinstance(f, ast.FunctionDef) or not f.name.startswith("_") or f.name.startswith("__"):
+                continue
+            if any(not (isinstance(d, ast.Name) and d.id in ("staticmethod", "classmethod")) for d in f.decorator_list):
+                continue
+            q = f"{modname}.{cname}.{f.name}" if cname else f"{modname}.{f.name}"
+            if q in known or all_defs.count(f.name) != 1 or f.args.vararg or f.args.kwarg or f.args.posonlyargs or f.args.kwonlyargs:
+                continue
+            is_static = any(isinstance(d, ast.Name) and d.id == "staticmethod" for d in f.decorator_list)
+            params = [a.arg for a in f.args.args]
+            off = 1 if (cname and not is_static) else 0
+            params = params[off:]
+            nargs = len(f.args.args)
+            defaults = {}
+            for i_, a in enumerate(f.args.args):
+                dpos = i_ - (nargs - len(f.args.defaults))
+                if 0 <= dpos < len(f.args.defaults):
+                    defaults[a.arg] = f.args.defaults[dpos]
+            refs = [x for x in ast.walk(tree) if (isinstance(x, ast.Attribute) and x.attr == f.name) or (isinstance(x, ast.Name) and x.id == f.name)]
+            calls = [x for x in ast.walk(tree) if isinstance(x, ast.Call) and any(x.func is r for r in refs)]
+            if not calls or len(calls) != len(refs):
+                continue
+            if any(any(isinstance(a, ast.Starred) for a in c.args) or any(k.arg is None for k in c.keywords) for c in calls):
+                continue
+            flags = []
+            for pn in params:
+                if pn not in defaults or not literal(defaults[pn]):
+                    continue
+                uses = [x for x in ast.walk(f) if isinstance(x, ast.Name) and x.id == pn]
+                if not uses or any(not isinstance(x.ctx, ast.Load) for x in uses):
+                    continue
+                idx = params.index(pn)
+                vals = []
+                for c in calls:
+                    arg = c.args[idx] if idx < len(c.args) else next((k.value for k in c.keywords if k.arg == pn), defaults[pn])
+                    vals.append(arg)
+                if all(literal(v) for v in vals) and len({repr(v.value) for v in vals}) >= 1:  # type: ignore[union-attr]
+                    # the flag is only tested: every use sits in a test position (if / while / IfExp test, not, and / or, `is None`)
+                    flags.append(pn)
+            if not flags:
+                continue
+            combos: Dict[Tuple, List[ast.Call]] = {}
+            for c in calls:
+                key = []
+                for pn in flags:
+                    idx = params.index(pn)
+                    arg = c.args[idx] if idx < len(c.args) else next((k.value for k in c.keywords if k.arg == pn), defaults[pn])
+                    key.append(arg.value)  # type: ignore[union-attr]
+                combos.setdefault(tuple(key), []).append(c)
+            if len(combos) > 4 or (len(combos) == 1 and len(calls) > 0 and False):
+                continue
+
+            class _S(ast.NodeTransformer):
+                def __init__(self, env: Dict[str, object]) -> None:
+                    self.env = env
+
+                def visit_Name(self, node):  # type: ignore[no-untyped-def]
+                    if node.id in self.env and isinstance(node.ctx, ast.Load):
+                        return ast.copy_location(ast.Constant(value=self.env[node.id]), node)
+                    return node
+
+            clones = []
+            names = {}
+            for i_, key in enumerate(sorted(combos, key=repr)):
+                env = dict(zip(flags, key))
+                cl = copy.deepcopy(f)
+                tag = "_".join(f"{pn}_{str(v)}" for pn, v in env.items())
+                cl.name = f"{f.name}__{tag}"
+                names[key] = cl.name
+                keep_args, keep_defaults = [], []
+                for j_, a in enumerate(cl.args.args):
+                    if a.arg in env:
+                        continue
+                    keep_args.append(a)
+                    dpos = j_ - (nargs - len(f.args.defaults))
+                    if 0 <= dpos < len(cl.args.defaults):
+                        keep_defaults.append(cl.args.defaults[dpos])
+                cl.args.args, cl.args.defaults = keep_args, keep_defaults
+                cl.body = [_S(env).visit(st) for st in cl.body]
+                cl.body = _fold_constant_tests(cl.body) or [ast.Pass()]
+                ast.fix_missing_locations(cl)
+                clones.append(cl)
+            at = body.index(f)
+            body[at:at + 1] = clones
+            for key, cs in combos.items():
+                for c in cs:
+                    if isinstance(c.func, ast.Attribute):
+                        c.func.attr = names[key]
+                    elif isinstance(c.func, ast.Name):
+                        c.func.id = names[key]
+                    drop = sorted((params.index(pn) for pn in flags), reverse=True)
+                    for idx in drop:
+                        if idx < len(c.args):
+                            del c.args[idx]
+                    c.keywords = [kw for kw in c.keywords if kw.arg not in flags]
+
+
 def _specialise_handler_class_params(tree: ast.Module, modname: str, known: Optional[set]) -> None:
     """A private helper introduced after the rules were written whose parameter is the tuple of exception classes it
     swallows (`def _fsync_path(path, ignore=None): ... except ignore: pass`), called only with literal tuples / None / the
@@ -1654,6 +1855,7 @@ class Program:
             modname = f"{PKG}.{fn[:-3]}" if fn != "__init__.py" else PKG
             _specialise_constant_dispatch(tree, modname, self.known)
             _specialise_handler_class_params(tree, modname, self.known)
+            _specialise_constant_flags(tree, modname, self.known)
             m = Module(modname, path, os.path.relpath(path, self.repo_root), src, tree)
             self.modules[modname] = m
             self._index_module(m)
